@@ -320,14 +320,20 @@ func init() {
 					return ok && b.Op == token.SUB && isConstInt(math.MaxInt64)(b.X) && isUnix(b.Y)
 				}
 				fits := guardRel("TTL < MaxInt64 - now", ">", headroom, loadOfField(ttlField))
+				// (the value stored may be chosen into a local first: a φ, resolved on the path)
 				clamped := &calledEv{name: "ExpiredAt = MaxInt64", match: func(x ssa.Instruction) bool {
 					st, ok := x.(*ssa.Store)
-					return ok && fieldOfAddr(st.Addr) == fExpired && isConstInt(math.MaxInt64)(st.Val)
+					return ok && fieldOfAddr(st.Addr) == fExpired && isConstInt(math.MaxInt64)(resolved(st.Val))
 				}}
 				sumStored := false
 				for _, st := range storesToField(fn, fExpired) {
-					if b, ok := strip(st.Val).(*ssa.BinOp); ok && b.Op == token.ADD && (isUnix(b.X) && isLoadOf(b.Y, ttlField) || isUnix(b.Y) && isLoadOf(b.X, ttlField)) {
-						sumStored = true
+					if phi, isPhi := st.Val.(*ssa.Phi); isPhi {
+						trackPhis[fn] = append(trackPhis[fn], phi)
+					}
+					for _, alt := range valueAlternatives(st.Val, 3) {
+						if b, ok := strip(alt).(*ssa.BinOp); ok && b.Op == token.ADD && (isUnix(b.X) && isLoadOf(b.Y, ttlField) || isUnix(b.Y) && isLoadOf(b.X, ttlField)) {
+							sumStored = true
+						}
 					}
 				}
 				if sumStored {
@@ -587,42 +593,65 @@ func (c *Ctx) responseMax(fn *ssa.Function, newV ssa.Value, loadFnF *ssa.Functio
 			}
 			construct := "response.NewSafePoint in " + fnName(fn)
 			req := "reports old where new < old, otherwise new (max of the two)"
-			phi, ok := st.Val.(*ssa.Phi)
-			if !ok {
+			if _, ok := st.Val.(*ssa.Phi); !ok {
 				c.Viol("C15/response-max", construct, req, P.instrPos(st), "stored value is not selected between old and new")
 				continue
 			}
+			// decided per path: the value that reaches the store on a path (φs — also those of a result variable —
+			// resolved by the tests taken) is old only where new < old was established, and new only where it was not
+			var phis []*ssa.Phi
+			var collect func(v ssa.Value, d int)
+			seenV := map[ssa.Value]bool{}
+			collect = func(v ssa.Value, d int) {
+				if v == nil || d < 0 || seenV[v] {
+					return
+				}
+				seenV[v] = true
+				if p, isPhi := v.(*ssa.Phi); isPhi {
+					phis = append(phis, p)
+					for _, e := range p.Edges {
+						collect(e, d-1)
+					}
+				}
+			}
+			collect(st.Val, 3)
+			oldTrack := trackPhis[fn]
+			trackPhis[fn] = append(append([]*ssa.Phi{}, oldTrack...), phis...)
+			gLE := guardRel("new<old", "< <=", same(newV), resultOfCall(loadFn))
+			gLT := guardRel("new<old (strict)", "<", same(newV), resultOfCall(loadFn))
+			ex := explore(P, fn, 0, []Ev{gLE, gLT}, func(x ssa.Instruction) bool { return x == ins })
+			trackPhis[fn] = oldTrack
 			good := true
 			hasOld := false
 			detail := ""
-			for i, e := range phi.Edges {
+			for k, stt := range ex.at[ins] {
+				r := ex.resolveAt(st.Val, ex.atSel[ins][k])
+				h := ex.holdsVec(stt)
 				switch {
-				case resultOfCall(loadFn)(e):
+				case resultOfCall(loadFn)(r):
 					hasOld = true
-					pred := phi.Block().Preds[i]
-					g := guardRel("new<old", "< <=", same(newV), resultOfCall(loadFn))
-					last := pred.Instrs[len(pred.Instrs)-1]
-					_, fails := requireAt(P, fn, 0, []Ev{g}, func(x ssa.Instruction) bool { return x == last }, all)
-					if len(fails) > 0 {
+					if !h[0] {
 						good = false
-						detail = "old is selected on a path where new < old is not established: " + fails[0].Trace
+						detail = "old is reported on a path where new < old is not established: " + ex.findTrace(b.Index, stt, ins)
 					}
-				case sameVal(e, newV):
-					// new is reported on paths where new >= old: the edge must not come from new<old true edge
-					pred := phi.Block().Preds[i]
-					g := guardRel("new<old", "<", same(newV), resultOfCall(loadFn))
-					last := pred.Instrs[len(pred.Instrs)-1]
-					ex := explore(P, fn, 0, []Ev{g}, func(x ssa.Instruction) bool { return x == last })
-					for _, s := range ex.at[last] {
-						// reaching this pred with new<old established and then selecting new is wrong
-						if ex.holdsVec(s)[0] && len(pred.Succs) == 1 {
-							good = false
-							detail = "new is reported on a path where new < old holds"
-						}
+				case sameVal(r, newV):
+					if h[1] {
+						good = false
+						detail = "new is reported on a path where new < old holds"
 					}
 				default:
-					good = false
-					detail = "unexpected operand " + e.String()
+					if _, stillPhi := r.(*ssa.Phi); stillPhi {
+						// could not be resolved on this path: fall back to its operands, each must be old or new
+						for _, e := range valueAlternatives(r, 3) {
+							if !resultOfCall(loadFn)(e) && !sameVal(e, newV) {
+								good = false
+								detail = "unexpected operand " + e.String()
+							}
+						}
+					} else {
+						good = false
+						detail = "unexpected value " + r.String()
+					}
 				}
 			}
 			c.Check(good && hasOld, "C15/response-max", construct, req, P.instrPos(st), detail)
